@@ -15,6 +15,7 @@
  *   strtonum S MIN MAX | bits LO SHIFT CNT | ntop AF ADDR SIZE | pton AF S
  *   fmt ENTRY KIND LEN | reallocarray COUNT SIZE | mbs SRC SRCLEN DSTLEN|null
  *   getline CONTENT INIT|null | timegm Y M D h m s | fnmatch PAT STR FLAGS
+ *   errno 0|ERANGE|EINVAL|EPERM|ENOMEM|EILSEQ|ENOSPC   (sets errno-on-entry of the following calls)
  */
 #include <usual/string.h>
 #include <usual/bits.h>
@@ -74,6 +75,14 @@ int loop_flsll(long long x);
 int loop_ffs(int x);
 int loop_ffsl(long x);
 int loop_ffsll(long long x);
+
+/* errno history: every op that calls a replacement enters it with `cur_errno` and leaves what
+ * the call left behind in `cur_errno` (so a failing call followed by a succeeding one is a
+ * two-call history); `errno NAME` sets it, `#case` resets it to 0.  The exit value is printed
+ * as ` e=NAME` and compared with the model. */
+static int cur_errno;
+#define ENTER() (errno = cur_errno)
+#define LEAVE() (cur_errno = errno)
 
 static FILE *platlog;
 static const char *cur_line;
@@ -149,6 +158,7 @@ static const char *errname(int e)
 	case ENOMEM: return "ENOMEM";
 	case ENAMETOOLONG: return "ENAMETOOLONG";
 	case EILSEQ: return "EILSEQ";
+	case EPERM: return "EPERM";
 	}
 	snprintf(b, sizeof b, "E%d", e);
 	return b;
@@ -311,20 +321,21 @@ static int op_path(char **w, int nw)
 		p = dupbuf(p0, pl, 1);
 		p2 = dupbuf(p0, pl, 1);
 	}
-	errno = 0;
+	ENTER();
 	if (!strcmp(w[0], "basename")) {
 		r = basename((char *)p);
-		e = errno;
+		e = errno; LEAVE();
 		r2 = g_basename((char *)p2);
 	} else {
 		r = dirname((char *)p);
-		e = errno;
+		e = errno; LEAVE();
 		r2 = g_dirname((char *)p2);
 	}
 	if (!r) {
-		printf("null %s", errname(e));
+		printf("null e=%s", errname(e));
 	} else {
 		hc_puthex(r, strlen(r));
+		printf(" e=%s", errname(e));
 		if (p && r >= (char *)p && r <= (char *)p + pl)
 			printf(" ## path+%ld", (long)(r - (char *)p));
 		else
@@ -354,13 +365,14 @@ static int op_strtonum(char **w, int nw)
 	sl = hc_unhex(w[1], &s0);
 	if (sl < 0 || !parse_ll(w[2], &mn) || !parse_ll(w[3], &mx)) return 0;
 	s = dupbuf(s0, sl, 1);
-	errno = 77;
+	ENTER();
 	r = strtonum((char *)s, mn, mx, &es);
 	e = errno;
-	printf("%lld %s %s", r, es == NULL ? "ok" : es, e == 77 ? "keep" : errname(e));
-	/* NULL errstr_p must be accepted and give the same value */
-	errno = 77;
+	printf("%lld %s e=%s", r, es == NULL ? "ok" : es, errname(e));
+	/* NULL errstr_p must be accepted and give the same value (same entry errno) */
+	ENTER();
 	if (strtonum((char *)s, mn, mx, NULL) != r || errno != e) printf(" NULLERRSTR-DIFFERS");
+	LEAVE();
 	free(s); free(s0);
 	return 1;
 }
@@ -408,13 +420,13 @@ static int op_ntop(char **w, int nw)
 	cap = size > 0 ? size : 0;
 	d = malloc(cap ? cap : 1); memset(d, 0xAA, cap ? cap : 1);
 	d2 = malloc(cap ? cap : 1); memset(d2, 0xAA, cap ? cap : 1);
-	errno = 0;
+	ENTER();
 	r = inet_ntop(realaf, a, (char *)d, (int)size);
-	e = errno;
+	e = errno; LEAVE();
 	errno = 0;
 	r2 = size >= 0 ? g_inet_ntop(realaf, a, (char *)d2, (int)size) : NULL;
 	e2 = errno;
-	printf("%s %s ", r ? (r == (char *)d ? "dst" : "other") : "null", r ? "0" : errname(e));
+	printf("%s e=%s ", r ? (r == (char *)d ? "dst" : "other") : "null", errname(e));
 	hc_puthex(d, cap);
 	if (size >= 0 && ((r != NULL) != (r2 != NULL) || (r && strcmp(r, r2)) || (!r && e != e2)))
 		plat("inet_ntop", "%s %s\t%s %s", r ? r : "(null)", errname(e), r2 ? r2 : "(null)", r2 ? "0" : strerror(e2));
@@ -437,11 +449,11 @@ static int op_pton(char **w, int nw)
 	s = dupbuf(s0, sl, 1);
 	dd = malloc(n); memset(dd, 0xAA, n);
 	dd2 = malloc(n); memset(dd2, 0xAA, n);
-	errno = 0;
+	ENTER();
 	r = inet_pton(realaf, (char *)s, dd);
-	e = errno;
+	e = errno; LEAVE();
 	r2 = g_inet_pton(realaf, (char *)s, dd2);
-	printf("%d %s ", r, r < 0 ? errname(e) : "0");
+	printf("%d e=%s ", r, errname(e));
 	hc_puthex(dd, n);
 	if (r != r2 || memcmp(dd, dd2, n)) {
 		memcpy(d, dd, n); memcpy(d2, dd2, n);
@@ -468,7 +480,7 @@ static int op_fmt(char **w, int nw)
 {
 	unsigned long long kind, len;
 	char *res = (char *)(uintptr_t)0x1, *res2 = NULL, *arg = NULL;
-	int r = -2, r2 = -2, entry;
+	int r = -2, r2 = -2, entry, e = 0;
 	if (nw != 4) return 0;
 	if (!parse_ull(w[2], &kind) || !parse_ull(w[3], &len) || kind > 2 || len > 100000) return 0;
 	entry = !strcmp(w[1], "asprintf") ? 0 : !strcmp(w[1], "cx_asprintf") ? 1 : !strcmp(w[1], "cx_sprintf") ? 2 : -1;
@@ -476,23 +488,29 @@ static int op_fmt(char **w, int nw)
 	if ((kind == 1 && len < 2) || (kind == 2 && len < 7)) return 0;
 	if (kind == 0) {
 		arg = fmt_arg(len, len);
+		ENTER();
 		if (entry == 0) r = asprintf(&res, "%s", arg);
 		else if (entry == 1) r = cx_asprintf(NULL, &res, "%s", arg);
 		else { res = cx_sprintf(NULL, "%s", arg); r = res ? (int)strlen(res) : -1; }
+		e = errno; LEAVE();
 		r2 = g_asprintf_s(&res2, "%s", arg);
 	} else if (kind == 1) {
+		ENTER();
 		if (entry == 0) r = asprintf(&res, "%*d", (int)len, 42);
 		else if (entry == 1) r = cx_asprintf(NULL, &res, "%*d", (int)len, 42);
 		else { res = cx_sprintf(NULL, "%*d", (int)len, 42); r = res ? (int)strlen(res) : -1; }
+		e = errno; LEAVE();
 		r2 = g_asprintf_wd(&res2, "%*d", (int)len, 42);
 	} else {
 		arg = fmt_arg(len - 7, len);
+		ENTER();
 		if (entry == 0) r = asprintf(&res, "ab%sxy%d", arg, 123);
 		else if (entry == 1) r = cx_asprintf(NULL, &res, "ab%sxy%d", arg, 123);
 		else { res = cx_sprintf(NULL, "ab%sxy%d", arg, 123); r = res ? (int)strlen(res) : -1; }
+		e = errno; LEAVE();
 		r2 = g_asprintf_sd(&res2, "ab%sxy%d", arg, 123);
 	}
-	printf("%d ", r);
+	printf("%d e=%s ", r, errname(e));
 	if (r >= 0 && res) hc_puthex(res, (size_t)r + 1);   /* exact-size block: r+1 bytes incl. NUL */
 	else printf("%s", res ? "nonnull" : "null");
 	if (r != r2 || (r >= 0 && memcmp(res, res2, r + 1))) plat("asprintf", "%d\t%d", r, r2);
@@ -509,12 +527,12 @@ static int op_reallocarray(char **w, int nw)
 	if (nw != 3) return 0;
 	if (!parse_ull(w[1], &c) || !parse_ull(w[2], &s)) return 0;
 	ra_record = 1; ra_called = 0; ra_total = 0;
-	errno = 0;
+	ENTER();
 	r = reallocarray(NULL, (size_t)c, (size_t)s);
-	e = errno;
+	e = errno; LEAVE();
 	ra_record = 0;
-	if (ra_called) printf("realloc %zu", ra_total);
-	else printf("%s %s", r ? "nonnull" : "null", errname(e));
+	if (ra_called) printf("realloc %zu e=%s", ra_total, errname(e));
+	else printf("%s e=%s", r ? "nonnull" : "null", errname(e));
 	return 1;
 }
 
@@ -541,9 +559,12 @@ static int op_mbs(char **w, int nw)
 	}
 	memset(&ps, 0, sizeof ps); memset(&ps2, 0, sizeof ps2);
 	sp = (char *)s0; sp2 = (char *)s0;
+	ENTER();
 	r = mbsnrtowcs(d, &sp, srclen, dstlen, &ps);
+	LEAVE();
 	r2 = g_mbsnrtowcs(d2, &sp2, srclen, dstlen, &ps2);
 	if (r == (size_t)-1) printf("-1 "); else printf("%zu ", r);
+	printf("e=%s ", errname(cur_errno));
 	put_off(sp, s0);
 	putchar(' ');
 	if (nodst || dstlen == 0) putchar('-');
@@ -576,7 +597,9 @@ static int op_getline(char **w, int nw)
 	rewind(f); rewind(f2);
 	if (!isnull) { ln = malloc(init); sz = init; ln2 = malloc(init); sz2 = init; }
 	while (calls < 64) {
+		ENTER();
 		r = getline(&ln, &sz, f);
+		LEAVE();
 		r2 = g_getline(&ln2, &sz2, f2);
 		if (calls) putchar(' ');
 		printf("%d:", r);
@@ -586,6 +609,7 @@ static int op_getline(char **w, int nw)
 		calls++;
 		if (r < 0) break;
 	}
+	printf(" e=%s", errname(cur_errno));
 	if (differs) plat("getline", "differs");
 	fclose(f); fclose(f2); free(ln); free(ln2); free(c0);
 	return 1;
@@ -634,12 +658,13 @@ static int op_fnmatch(char **w, int nw)
 	if (memchr(p0, 0, pl) || memchr(s0, 0, sl)) return 0;
 	p = dupbuf(p0, pl, 1);
 	s = dupbuf(s0, sl, 1);
-	errno = 0;
+	ENTER();
 	ur = fnmatch((char *)p, (char *)s, (int)fl);
+	LEAVE();
 	r = ur == 0 ? 0 : ur == FNM_NOMATCH ? 1 : -1;
 	r2 = g_fnmatch((char *)p, (char *)s, !!(fl & FNM_PATHNAME), !!(fl & FNM_NOESCAPE), !!(fl & FNM_PERIOD),
 		       !!(fl & FNM_CASEFOLD), !!(fl & FNM_LEADING_DIR));
-	printf("%d ## %d", r, r);
+	printf("%d e=%s ## %d", r, errname(cur_errno), r);
 	if (r != r2) plat("fnmatch", "%d\t%d", r, r2);
 	free(p); free(s); free(p0); free(s0);
 	return 1;
@@ -661,7 +686,16 @@ int main(void)
 		cur_copy = strdup(line);
 		cur_line = cur_copy;
 		nw = hc_words(line, w, 12);
-		if (nw == 1 && !strcmp(w[0], "#case")) { puts("#case"); continue; }
+		if (nw == 1 && !strcmp(w[0], "#case")) { cur_errno = 0; puts("#case"); continue; }
+		if (nw == 2 && !strcmp(w[0], "errno")) {
+			static const struct { const char *n; int v; } ev[] = {
+				{"0", 0}, {"ERANGE", ERANGE}, {"EINVAL", EINVAL}, {"EPERM", EPERM}, {"ENOMEM", ENOMEM},
+				{"EILSEQ", EILSEQ}, {"ENOSPC", ENOSPC}, {NULL, 0}};
+			int k;
+			for (k = 0; ev[k].n && strcmp(ev[k].n, w[1]); k++) ;
+			if (ev[k].n) { cur_errno = ev[k].v; puts("ok"); } else puts("bad-op");
+			continue;
+		}
 		if (nw == 1 && !strcmp(w[0], "locale")) { printf("%s\n", loc ? "utf8" : "NO-UTF8-LOCALE"); continue; }
 		if (nw >= 1) {
 			const char *op = w[0];
